@@ -10,53 +10,79 @@ from checks import _ll
 PROPERTY = "C08"
 LEAN_MODULES = ["TapkeeVerif.Props.C08"]
 LEAN_EXES = ["model_c08"]
-REQUIRED_THEOREMS = [
+REQUIRED_THEOREMS = [     # every theorem of the Props module (all MANIFEST-named ones included): deleting one fails the audit
     "TapkeeVerif.C08.lle_M_eq",
+    "TapkeeVerif.C08.lleMD_get",
     "TapkeeVerif.C08.lle_rows_sum_one",
     "TapkeeVerif.C08.lle_const_eigvec",
+    "TapkeeVerif.C08.lle_system_symm",
+    "TapkeeVerif.C08.lle_system_eq",
     "TapkeeVerif.C08.ltsa_M_eq",
+    "TapkeeVerif.C08.ltsaMD_get",
+    "TapkeeVerif.C08.ltsa_proj_eq",
     "TapkeeVerif.C08.ltsa_const_null",
-    "TapkeeVerif.C08.hlle_cols_bijective",
-    "TapkeeVerif.C08.hlle_index_ok",
-    "TapkeeVerif.C08.hlleM_ok",
-    "TapkeeVerif.C08.hlle_prefix_update_refuted",       # regression witness of F-HLLE-CT (pre-fix recurrence)
-    "TapkeeVerif.C08.hlle_cols_bijective_of_update",
-    "TapkeeVerif.C08.smallest_skip_one_optimal",
-    "TapkeeVerif.C08.skipped_eigenvector_is_constant",
-    "TapkeeVerif.C08.hlle_M_eq",
-    "TapkeeVerif.C08.hlle_const_null",
-    "TapkeeVerif.C08.hlle_affine_on_flat_partial",
-    "TapkeeVerif.C08.gramSchmidt_orthogonal",
+    "TapkeeVerif.C08.centerMatrix_eq",
+    "TapkeeVerif.C08.centerMatrix_rows_sum_zero",
     "TapkeeVerif.C08.ltsa_affine_on_flat_partial",
-    "TapkeeVerif.C08.hlle_writes_eq_expected",
-    "TapkeeVerif.C08.hlle_sources_cover_pairs",
+    "TapkeeVerif.C08.hlle_prefix_update_refuted",
+    "TapkeeVerif.C08.hlle_writes_eq_with",
+    "TapkeeVerif.C08.hlle_cols_bijective_of_update",
+    "TapkeeVerif.C08.hlle_cols_bijective_fixed",
+    "TapkeeVerif.C08.hlle_cols_bijective",
+    "TapkeeVerif.C08.hlleDp_eq",
+    "TapkeeVerif.C08.hlleCols_eq",
+    "TapkeeVerif.C08.hlle_index_ok",
+    "TapkeeVerif.C08.hlle_writes_in_range",
+    "TapkeeVerif.C08.hlle_all_product_cols_written",
     "TapkeeVerif.C08.hlle_allPairs_mem",
     "TapkeeVerif.C08.hlle_allPairs_nodup",
+    "TapkeeVerif.C08.hlle_writes_eq_expected",
+    "TapkeeVerif.C08.hlle_sources_cover_pairs",
     "TapkeeVerif.C08.hlle_rightCols_eq",
     "TapkeeVerif.C08.hlle_tangent_block_eq",
     "TapkeeVerif.C08.hlleYi0_products",
+    "TapkeeVerif.C08.hlle_colOf_eq",
+    "TapkeeVerif.C08.hlleM_ok",
+    "TapkeeVerif.C08.hlle_M_eq",
+    "TapkeeVerif.C08.hlle_proj_eq",
+    "TapkeeVerif.C08.hlleMD_get",
+    "TapkeeVerif.C08.hlle_const_null",
+    "TapkeeVerif.C08.hlle_affine_on_flat_partial",
+    "TapkeeVerif.C08.gsOne_orthogonal",
+    "TapkeeVerif.C08.gramSchmidt_orthogonal",
+    "TapkeeVerif.C08.hlle_gs_contract",
+    "TapkeeVerif.C08.smallest_skip_one_optimal",
+    "TapkeeVerif.C08.exV_orth",
+    "TapkeeVerif.C08.skipped_eigenvector_is_constant",
+    "TapkeeVerif.C08.belowCount_sound",
+    "TapkeeVerif.C08.belowCount_bounds_eigenvalues",
+    "TapkeeVerif.C08.bottom_certified",
     "TapkeeVerif.C08.lle_psd",
     "TapkeeVerif.C08.ltsa_psd",
     "TapkeeVerif.C08.hlle_psd",
     "TapkeeVerif.C08.psd_eigenvalues_ge",
+    "TapkeeVerif.C08.lle_eigenvalues_ge_shift",
+    "TapkeeVerif.C08.skip_one_end_to_end",
     "TapkeeVerif.C08.klle_end_to_end",
     "TapkeeVerif.C08.kltsa_end_to_end",
     "TapkeeVerif.C08.hlle_end_to_end",
-    "TapkeeVerif.C08.belowCount_sound",
-    "TapkeeVerif.C08.belowCount_bounds_eigenvalues",
-    "TapkeeVerif.C08.bottom_certified",
-    # flat-manifold clause (last sentence of the property)
-    "TapkeeVerif.C08.flat_local_span",                  # hflat from the local eigensolver contract (rank bridge)
-    "TapkeeVerif.C08.flat_local_orthonormal",           # horth from the contract + general position
-    "TapkeeVerif.C08.ltsa_affine_in_nullspace",         # LTSA, inclusion ⊇, data-side hypotheses only
-    "TapkeeVerif.C08.ltsa_nullspace_exact",             # LTSA, null space = affine functions (overlap / connectivity / cover)
-    "TapkeeVerif.C08.ltsa_columns_affine_on_flat",      # LTSA, every returned column is affine in the intrinsic coordinates
-    "TapkeeVerif.C08.hlle_gs_contract",                 # HLLE, the Gram-Schmidt contract as a theorem about the sweep
-    "TapkeeVerif.C08.hlle_affine_in_nullspace",         # HLLE, inclusion ⊇, data-side hypotheses only
-    "TapkeeVerif.C08.hlle_null_local_partial",          # HLLE, first half of the reverse inclusion
-    "TapkeeVerif.C08.hlle_const_null_of_sweep",         # HLLE, constant null vector with hgs discharged by the sweep
-    "TapkeeVerif.C08.hlle_nullspace_exact_min_k",       # HLLE, null space = affine functions at k = 1 + d + dp
-    "TapkeeVerif.C08.hlle_columns_affine_on_flat_min_k",  # HLLE, returned columns affine at k = 1 + d + dp
+    "TapkeeVerif.C08.flat_local_span",
+    "TapkeeVerif.C08.flat_local_orthonormal",
+    "TapkeeVerif.C08.ltsa_affine_in_nullspace",
+    "TapkeeVerif.C08.ltsa_nullspace_exact",
+    "TapkeeVerif.C08.ltsa_columns_affine_on_flat",
+    "TapkeeVerif.C08.flA_inj",
+    "TapkeeVerif.C08.fl4_heig",
+    "TapkeeVerif.C08.fl4_hgp",
+    "TapkeeVerif.C08.fl4_hconn",
+    "TapkeeVerif.C08.fl4_hsys",
+    "TapkeeVerif.C08.hlle_affine_in_nullspace",
+    "TapkeeVerif.C08.hlle_null_local_partial",
+    "TapkeeVerif.C08.hlle_const_null_of_sweep",
+    "TapkeeVerif.C08.hlle_nullspace_exact_min_k",
+    "TapkeeVerif.C08.hlle_columns_affine_on_flat_min_k",
+    "TapkeeVerif.C08.fromTriplets_perm",
+    "TapkeeVerif.C08.fromTripletsD_get",
 ]
 
 
